@@ -96,6 +96,20 @@ def gen_cases(rng, tier, scale):
                     c["cfg.intra_period_length"] = 15
                     c["cfg.look_ahead_distance"] = 15
                 cases.append(c)
+    # several GOPs under a starved or flooded budget with tight bounds: later GOPs are corrected from the error of
+    # earlier ones (the refinement after the per-frame clamp), so the bounds must be re-checked at the very end
+    for rc in (1, 2):
+        for (lo, hi, rate) in ([(10, 30, 30000), (20, 20, 20000), (0, 12, 40000000)] if quick else
+                               [(10, 30, 30000), (20, 20, 20000), (0, 12, 40000000), (5, 25, 10000), (30, 40, 15000),
+                                (40, 63, 5000), (0, 5, 80000000)]):
+            for ip in ((15,) if quick else (7, 15, 31)):
+                c = t(rng, frames=64, width=192, height=128, content=rng.choice(["cuts", "noise", "mix"]),
+                      **{"cfg.rate_control_mode": rc, "cfg.target_bit_rate": rate, "cfg.min_qp_allowed": lo,
+                         "cfg.max_qp_allowed": hi, "cfg.recon_enabled": 0, "cfg.logical_processors": 4,
+                         "cfg.hierarchical_levels": 3, "cfg.intra_period_length": ip})
+                if rc == 2:
+                    c["cfg.look_ahead_distance"] = ip
+                cases.append(c)
     for i in range(12 if quick else 120):
         L = rng.choice([0, 1, 2, 3, 4, 5])
         mg = 1 << L
